@@ -482,6 +482,8 @@ pub struct CheckDef {
     pub parts: Vec<Part>,
     /// Seconds without any output after which a worker is killed (hang detection).
     pub idle_limit_s: u64,
+    /// The check drives the real CLI: the parent builds it from the current tree first.
+    pub needs_cli: bool,
 }
 
 // ---------------------------------------------------------------------------------------------
@@ -598,6 +600,12 @@ struct ShardState {
 
 pub fn parent_main(def: &CheckDef, tier: Tier, seed: u64) -> i32 {
     let t0 = Instant::now();
+    if def.needs_cli {
+        if let Err(e) = crate::cli::ensure_built() {
+            eprintln!("harness error: {e}");
+            return 2;
+        }
+    }
     let exe = std::env::current_exe().expect("current_exe");
     let total_rounds: u32 = def.parts.iter().map(|p| p.rounds).sum();
     let known = load_known_findings();
@@ -662,7 +670,22 @@ pub fn parent_main(def: &CheckDef, tier: Tier, seed: u64) -> i32 {
                             };
                             st.killed_for_hang = false;
                             match st.last_case.take() {
-                                Some(c) => aborts.push(json!({"how": how, "case": c, "shard": ev.shard})),
+                                Some(c) => {
+                                    // After an abort that is itself a violation, skip the rest of
+                                    // that part on this shard: the next rounds would likely hit
+                                    // the same defect and each cost a watchdog period.
+                                    if c["v"].as_bool() == Some(true) {
+                                        let mut start = 0u32;
+                                        for p in &def.parts {
+                                            if st.next_round < start + p.rounds {
+                                                st.next_round = start + p.rounds - 1;
+                                                break;
+                                            }
+                                            start += p.rounds;
+                                        }
+                                    }
+                                    aborts.push(json!({"how": how, "case": c, "shard": ev.shard}));
+                                }
                                 None => harness_errors.push(format!(
                                     "worker for shard {} ended with {how} in round {} without an announced case",
                                     ev.shard, st.next_round
@@ -812,6 +835,7 @@ pub fn parent_main(def: &CheckDef, tier: Tier, seed: u64) -> i32 {
             "inconclusive": total.inconclusive,
             "known_findings_observed": total.known.iter().map(|(k, (n, ex))| json!({"signature": k, "cases": n, "example": ex})).collect::<Vec<_>>(),
             "aborts": aborts.len(),
+            "abort_cases": aborts.iter().take(12).map(|a| json!({"how": a["how"], "part": a["case"]["part"], "abort_is_violation": a["case"]["v"], "input": truncate(a["case"]["text"].as_str().unwrap_or(""), 400)})).collect::<Vec<_>>(),
             "notes": total.notes,
             "parts": def.parts.iter().map(|p| json!({"name": p.name, "rounds_per_shard": p.rounds})).collect::<Vec<_>>(),
             "shards": NSHARDS,
